@@ -217,7 +217,31 @@ func TestVerifC02Generate(t *testing.T) {
 			add("main", tc)
 		}
 	}
+	// side-effect-free unary calls sent with Connect GET: the request message travels in the URL, whatever its size
+	nGet := 2 + n/10
+	for i := 0; i < nGet; i++ {
+		size := []int{0, 50, 7000, 2000, 5000}[i%5]
+		data := make([]byte, size)
+		for k := range data {
+			data[k] = byte(rng.Intn(256))
+		}
+		m := &conformancev1.IdempotentUnaryRequest{RequestData: data}
+		if !rng.Chance(1, 5) {
+			m.ResponseDefinition = vfGenUnaryDef(rng)
+		}
+		a, _ := anypb.New(m)
+		req := &conformancev1.ClientCompatRequest{TestName: fmt.Sprintf("idempotent_unary_get/case-%d", i), StreamType: conformancev1.StreamType_STREAM_TYPE_UNARY,
+			Service: proto.String("connectrpc.conformance.v1.ConformanceService"), Method: proto.String("IdempotentUnary"), UseGetHttpMethod: true,
+			RequestHeaders: vfGenHeaders(rng, "req"), RequestMessages: []*anypb.Any{a}}
+		shapes[req.TestName] = fmt.Sprintf("idempotent_unary_get/%d-bytes", size)
+		add("get", &conformancev1.TestCase{Request: req})
+	}
 	for key, s := range files {
+		if strings.HasPrefix(key, "get-") {
+			s.ReliesOnConnectGet = true
+			s.RelevantProtocols = []conformancev1.Protocol{conformancev1.Protocol_PROTOCOL_CONNECT}
+			s.RelevantCompressions = []conformancev1.Compression{conformancev1.Compression_COMPRESSION_IDENTITY} // (as the shipped GET suite: the reference client compresses GET requests only above a size of its own)
+		}
 		data, err := protojson.MarshalOptions{Multiline: true}.Marshal(s)
 		if err != nil {
 			t.Fatal(err)
